@@ -250,7 +250,7 @@ def task(item):
                 for ident, what in bad:
                     v.append(viol(ident, what, {'specs': specs, 'trace': list(trace), 'namespace': nsn}, text.decode('utf-8', 'replace')[:2500]))
             else:
-                oc['same'] += 1
+                oc['same:%s' % ('with-routes' if any(isinstance(d, Route) for _n, _fi, _di, d in mm.all_defs(model, nsn)) else 'types-only')] += 1
     finally:
         pkg.close()
     return {'outcome': oc, 'viol': v, 'n': max(n, 1), 'transitions': n}
